@@ -1651,6 +1651,10 @@ func (c *c15) opPerformJoin() {
 	}
 	r.Check(createOK, "C15", "performjoin_without_create_event", c.sig(), "PerformJoin returned a join although the remote's state has no create event of a known room version")
 	// (c) the state passes the federation-response checks (C14's model)
+	if len(a.splitSig) > 0 {
+		r.Probe("answer_with_one_damaged_copy_of_an_event_listed_twice")
+		return
+	}
 	model := c.c14.modelState(a, false)
 	if !model.contract {
 		r.Probe("off_contract_provider_answer_used")
